@@ -179,6 +179,10 @@ class PatGen:
             safe += ch
         whole = safe == s
         k = rng.random()
+        if any(ord(ch) > 127 for ch in safe) and rng.random() < 0.7:
+            # non-ASCII text in the regex: matched as written (seeded change C08-7: literal run through unicode_escape)
+            cut = max(i for i, ch in enumerate(safe) if ord(ch) > 127) + 1
+            return Con("VR", safe + "$" if whole and rng.random() < 0.5 else safe[:rng.randint(cut, len(safe))])
         if k < 0.25 and whole:
             return Con("VR", s + "$")
         if k < 0.5:
@@ -466,6 +470,24 @@ def gen_cases(rng, tier):
                     rng.shuffle(pair)
                     for q in pair:
                         rules.append(Con("R", f"r{len(rules)}", q))
+            # non-ASCII text in a quoted regex is matched as written (seeded change C08-7: the literal run through an
+            # escape decoder): give some node a string property with such a value and add a matching, an anchored and a
+            # non-matching rule over it
+            if rng.random() < 0.3:
+                init_ok = {(c.name, f.name) for c in u.classes for f in u.merged(c.name) if f.init}
+                cand = [(n, p) for n in allnodes for p in n.args[3]
+                        if p.args[1].name == "VStr" and (n.args[1].decode(), p.args[0].decode()) in init_ok]
+                if cand:
+                    n0, p0 = rng.choice(cand)
+                    val = rng.choice(["café", "雪", "aé1", "ünï", "x雪y"])
+                    roots = [set_prop(r, n0.args[0], p0.args[0], Con("VStr", val)) for r in roots]
+                    allnodes, seen = [], set()
+                    for r in roots:
+                        for n in iter_nodes(r, seen):
+                            allnodes.append(n)
+                    cls_ = Con("Cls", [n0.args[1]])
+                    for lit in (val, val + "$", val[: max(1, len(val) - 1)], val[-1] + val[:-1]):
+                        rules.append(Con("R", f"r{len(rules)}", Con("PT", cls_, [Con("F", p0.args[0], Con("FVal", Con("VR", lit), None))])))
             targets = [r.args[0] for r in roots]
             extra = [n.args[0] for n in allnodes if n.args[0] not in targets]
             rng.shuffle(extra)
